@@ -803,9 +803,9 @@ func (ex *Exec) applyContract(st *State, fn *types.Func, fs *FuncSpec, u *Unit, 
 			// the callee's own postcondition writesOnlySpare(x) states (and its
 			// obligations prove) a frame at least as tight as `modifies Mem(x)`
 		} else if len(fs.Modifies) == 0 {
-			ex.W.Trusted["frame (unchecked): "+key+" is assumed to change nothing its callers can see except objects it allocates (its contract has no modifies clause)"] = true
+			ex.W.Trusted["frame (fields and maps checked by the callee's frame@ obligations; slice elements unchecked): "+key+" changes nothing its callers can see except objects it allocates (its contract has no modifies clause)"] = true
 		} else {
-			ex.W.Trusted["frame (unchecked): "+key+" is assumed to change only what its contract's modifies clause lists ("+strings.Join(fs.Modifies, "; ")+") and objects it allocates"] = true
+			ex.W.Trusted["frame (fields and maps checked by the callee's frame@ obligations; slice elements unchecked): "+key+" changes only what its contract's modifies clause lists ("+strings.Join(fs.Modifies, "; ")+") and objects it allocates"] = true
 		}
 	}
 	if !fs.Pure {
@@ -1121,6 +1121,7 @@ func (ex *Exec) inlineDecl(st *State, fn *types.Func, u *Unit, args []*Val, pos 
 		return nil, false
 	}
 	sig := fn.Type().(*types.Signature)
+	ex.inlinedBodies = append(ex.inlinedBodies, fd.Body)
 	ex.inlining[short] = true
 	ex.inlineDepth++
 	// the helper's own safety (nil, bounds) is not the caller's obligation: it
